@@ -230,6 +230,54 @@ def h_policy(ctx, nfp, algs):
         ctx.observe("state", t.state)
 
 
+class _X509:
+    """Stand-in for a cryptography certificate: serial number and per-algorithm fingerprint bytes."""
+
+    def __init__(self, serial, fp):
+        self.serial_number, self._fp = serial, fp
+        self.subject = self.issuer = "CN=x"
+
+    def fingerprint(self, alg):
+        return self
+
+    def hex(self):
+        return self._fp
+
+
+def _hex(ctx, name):
+    """bytes.hex() of a symbolic 2-byte fingerprint: 4 characters from 0-9a-f."""
+    d = ctx.str(name, 4, 0x30, 0x66)
+    if sx.active():
+        for c in d.cps:
+            ctx.assume(sx.Or(c <= 0x39, c >= 0x61), "lower-case hexadecimal")
+    else:
+        ctx.assume(all(ch in "0123456789abcdef" for ch in d), "lower-case hexadecimal")
+    return d
+
+
+def h_digest(ctx, alg):
+    """certificate_digest is a function of the certificate's content: the digest reported for a
+    second certificate is its own fingerprint, whatever was asked before (same or different
+    serial number, subject and issuer; same algorithm)."""
+    fa, fb = _hex(ctx, "fingerprint_a_hex"), _hex(ctx, "fingerprint_b_hex")
+    same_serial = ctx.choice("same_serial_number", [True, False])
+    a = _X509(7, fa)
+    b = _X509(7 if same_serial else 8, fb)
+    da = dtls.certificate_digest(a, alg)
+    db = dtls.certificate_digest(b, alg)
+    da2 = dtls.certificate_digest(a, alg)
+    ctx.reach("digests")
+
+    def want(fp):
+        h = fp.upper()
+        return h[0:2] + ":" + h[2:4]
+
+    ctx.check(sx.eq(da, want(fa)), "digest-is-the-colon-separated-upper-case-fingerprint")
+    ctx.check(sx.eq(db, want(fb)), "digest-of-a-second-certificate-is-its-own")
+    ctx.check(sx.eq(da2, want(fa)), "digest-of-the-first-certificate-unchanged")
+    ctx.observe("d", (da, db))
+
+
 def h_keys(ctx, pidx):
     """Both roles with the same exported keying material derive mirror-image keys (RFC 5764 4.2)."""
     prof = SRTP_PROFILES[pidx]
@@ -473,6 +521,7 @@ HARNESSES = {
     "ssl-profiles": Harness("ssl-profiles", h_ssl_profiles, lambda tier: [{}], style="BMC over configurations", bounds="one certificate, two DTLS contexts with solver-chosen SRTP profile lists from 8 subsets/orders of the three profiles", encoded=["aiortc.rtcdtlstransport:RTCCertificate._create_ssl_context"], stubs=["OpenSSL.SSL.Context -> recorder"], outside=OUT, twin="contexts-created", opts={"samples": 1}),
     "srtp-window": Harness("srtp-window", h_srtp_window, lambda tier: [{"role": r, "pidx": p} for r in ("client", "server") for p in ((0,) if tier == "quick" else range(len(SRTP_PROFILES)))], style="STEP", bounds="newest sequence number symbolic (16 bit), a second packet 0..1023 behind it (also across the wrap); both roles, profile 0 (quick) / every profile", encoded=["aiortc.rtcdtlstransport:RTCDtlsTransport._setup_srtp", "aiortc.rtcdtlstransport:RTCDtlsTransport._send_rtp"], stubs=STUBS + ["pylibsrtp.Session -> model of libsrtp's sender-side replay window (too-old check against policy.window_size, default 128; repeats need allow_repeat_tx)"], outside=OUT, twin="late-packet-sent", opts={"samples": 1}),
     "demux": Harness("demux", h_demux, lambda tier: [{"connected": c} for c in (True, False)] + [{"connected": True, "n": n} for n in (0, 1)], style="STEP", bounds="one datagram, first two bytes symbolic (all 65536 values), transport with / without SRTP sessions; plus an empty and a one-byte datagram", encoded=["aiortc.rtcdtlstransport:RTCDtlsTransport._recv_next", "aiortc.rtp:is_rtcp"], stubs=["SRTP session -> identity recorder; DTLS engine -> recorder; RTP/RTCP handlers -> recorders"], outside=["SRTP authentication itself (libsrtp)"], twin="demuxed", opts={"samples": 1}),
+    "digest": Harness("digest", h_digest, lambda tier: [{"alg": a} for a in sorted(SUPPORTED)], style="REL", bounds="two stand-in certificates with symbolic 2-byte fingerprints (as 4 hex characters) and equal or different serial numbers, digests requested a, b, a", encoded=["aiortc.rtcdtlstransport:certificate_digest"], stubs=["cryptography x509.Certificate -> stand-in with serial_number / fingerprint()"], outside=["the hash computation itself (cryptography / OpenSSL)"], twin="digests", opts={"samples": 1}),
     "policy": Harness("policy", h_policy, _policy_jobs, style="STEP", bounds="fingerprint lists of 0..2 (quick) / 0..3 entries, algorithm from {sha-256, SHA-256, Sha-384, sha-512, sha-1, md5}, values 2 symbolic characters 0x30..0x7A (any case, equal or not to the digest), handshake ok/failed, 4 SRTP profile outcomes, DTLS role auto/client/server", encoded=ENC, stubs=STUBS, outside=OUT, twin="started", opts={"samples": 1}),
     "keys": Harness("keys", h_keys, lambda tier: [{"pidx": i} for i in range(len(SRTP_PROFILES))], style="RT", bounds="every available SRTP profile, both roles, fully symbolic keying material", encoded=ENC, stubs=STUBS, outside=OUT, twin="keys-derived"),
 }
